@@ -48,11 +48,13 @@ fn one<X: Sx, Y: Sx>(ctx: &Ctx, idx: u64, l: usize, hdr_class: usize, msg_class:
     } else {
         keypair::<X>(&mut r)
     };
-    let hdr = match hdr_class % 4 {
+    let hdr = match hdr_class % 6 {
         0 => Hdr::Absent,
         1 => Hdr::Empty,
         2 => Hdr::Bytes(rand_bytes(&mut r, 1)),
-        _ => Hdr::Bytes(rand_bytes(&mut r, 24)),
+        3 => Hdr::Bytes(rand_bytes(&mut r, 24)),
+        4 => { let n = *pick(&mut r, &[255usize, 256, 257, 1000]); Hdr::Bytes(rand_bytes(&mut r, n)) }
+        _ => { let n = *pick(&mut r, &[65535usize, 65536, 70000]); Hdr::Bytes(rand_bytes(&mut r, n)) }
     };
     let msgs = gen_messages(&mut r, l, msg_class);
     // prior history on this thread: the same key signs and verifies lists of other sizes first, so that
@@ -165,6 +167,17 @@ fn one<X: Sx, Y: Sx>(ctx: &Ctx, idx: u64, l: usize, hdr_class: usize, msg_class:
     let mut x = vec![0u8];
     x.extend_from_slice(&ho_bytes);
     hdrs.push(("hdr-prefixed".into(), Some(x)));
+    // a header replaced by a digest of itself (what a "hash long headers first" shortcut would collide with)
+    {
+        use sha2::{Digest, Sha256};
+        hdrs.push(("hdr-replaced-by-sha256".into(), Some(Sha256::digest(&ho_bytes).to_vec())));
+        for (dn, dst) in [("api+H2S_", [&X::ID.api_id()[..], b"H2S_"].concat()), ("api", X::ID.api_id()), ("MAP", [&X::ID.api_id()[..], b"MAP_MSG_TO_SCALAR_AS_HASH_"].concat())] {
+            if let Ok(sc) = crate::refimpl::hash_to_scalar(X::ID, &ho_bytes, &dst) {
+                hdrs.push((format!("hdr-replaced-by-h2s({dn})"), Some(crate::refimpl::scalar_be(&sc).to_vec())));
+            }
+        }
+        hdrs.push(("hdr-replaced-by-expand48".into(), Some(crate::refimpl::expand_message(X::ID, &ho_bytes, &[&X::ID.api_id()[..], b"H2S_"].concat(), 48))));
+    }
     for (kind, hv) in hdrs {
         if hv.as_deref().unwrap_or(&[]) != &ho_bytes[..] {
             reject::<X>(ctx, &h, &kind, "-".into(), &h.pk, &h.sig, &h.msgs, hv.as_deref());
